@@ -1,72 +1,107 @@
 import Verif.Util.Proto
-import Verif.Model.Front.Attach
-import Verif.Model.Front.ExprSyntax
+import Verif.Model.Lang3.AttachRead
 /-!
-Driver for stream `attach` (C39): `attach prog <source>`; see `harness/cmd/vharness/stream_attach.go`.
+Driver for the stream `attach` (C49).
 
-Spec oracle (independent of the model): in Go's `CommentMap` every comment group occurs in exactly one slot.
-Model comparison: the slot assignments of `Verif.Model.Front.Attach.attach` on the same element forest and
-groups equal Go's.
+  attach prog <label> forms=<..> <sx> <src> => <obs interp> @@ <obs vm> @@ <obs vm+peephole> | reject:<..>
+
+Direct oracles on the Go observations (independent of the model):
+  * `double-attach-succeeded`  — the program attaches an attachment type to a value that (syntactically
+    tracked) already carries it, yet the run completed normally;
+  * `attachment-outlives-base` — in a run that completed normally, a base's `R.ResourceDestroyed(id=i)`
+    payload is followed by an attachment payload `A/B.ResourceDestroyed(id=i)` of the same base.
+Then model = each engine; engines must agree.
 -/
-open Verif.Proto Verif.Model.Front.Attach Verif.Model.Front.Syn
+open Verif.Proto Verif.Model.Lang3.Attach
 
-def sepStr : String := " \x1f "
+def renderObs (r : Except Err Unit × St) : String :=
+  let out := match r.1 with
+    | .ok _ => "ok:void"
+    | .error .duplicateAttachment => "user:go:DuplicateAttachmentError"
+    | .error (.internal w) => "model-internal:" ++ w
+  let logs := r.2.tr.filterMap fun | .log s => some s | _ => none
+  let evs := r.2.tr.filterMap fun
+    | .event n fs => some (n ++ "(" ++ ",".intercalate (fs.map fun (k, v) => k ++ "=Int:" ++ toString v) ++ ")")
+    | _ => none
+  out ++ "|" ++ ";".intercalate logs ++ "|" ++ ";".intercalate evs
 
-def natOf (s : String) : Option Nat := s.toNat?
+/-- syntactic tracking: variable ↦ set of attachment types, stash queue; returns whether some attach hits
+an existing type -/
+def hasDoubleAttach (ss : List Stmt) : Bool :=
+  let rec go (ss : List Stmt) (vars : List (Nat × List Nat)) (stash : List (List Nat)) : Bool :=
+    let get := fun (x : Nat) => ((vars.find? (·.1 == x)).map (·.2)).getD []
+    match ss with
+    | [] => false
+    | .create x _ _ _ :: r => go r ((x, []) :: vars) stash
+    | .attach x' a _ x :: r => (get x).contains a || go r ((x', a :: get x) :: vars) stash
+    | .remove a x :: r => go r ((x, (get x).filter (· != a)) :: vars) stash
+    | .move x' x :: r => go r ((x', get x) :: vars) stash
+    | .push x :: r => go r vars (stash ++ [get x])
+    | .pop x' :: r => (match stash with | t :: ts => go r ((x', t) :: vars) ts | [] => go r vars stash)
+    | _ :: r => go r vars stash
+  go ss [] []
 
-partial def readN : SX → Option N
-  | .list (.atom "n" :: .atom a :: .atom b :: .atom c :: .atom d :: .atom e :: .atom f :: kids) => do
-    let ks ← kids.mapM readN
-    some (N.mk (← natOf a) (← natOf b) (← natOf c) (← natOf d) (← natOf e) (← natOf f) ks)
-  | _ => none
+/-- `R.ResourceDestroyed(id=Int:i,…)` followed later by `A|B.ResourceDestroyed(id=Int:i,…)` -/
+def attAfterBase (o : String) : Bool :=
+  match o.splitOn "|" with
+  | [_, _, evs] =>
+    let es := if evs.isEmpty then [] else evs.splitOn ";"
+    let idOf := fun (e : String) => ((e.splitOn "(id=Int:").getD 1 "").takeWhile (fun c => c.isDigit || c == '-') |>.toString
+    let rec go : List String → Bool
+      | [] => false
+      | e :: rest =>
+        (e.startsWith "R.ResourceDestroyed" && rest.any fun f => !f.startsWith "R." && idOf f == idOf e) || go rest
+    go es
+  | _ => false
 
-def readForest (s : String) : Option (List N) :=
-  match SX.parse s with
-  | some (.list (.atom "f" :: ns)) => ns.mapM readN
-  | _ => none
+def evId (e : String) : String :=
+  ((e.splitOn "(id=Int:").getD 1 "").takeWhile (fun c => c.isDigit || c == '-') |>.toString
 
-def readG : SX → Option G
-  | .list [.atom "g", .atom i, .atom a, .atom b, .atom c, .atom d] => do
-    some ⟨← natOf i, ← natOf a, ← natOf b, ← natOf c, ← natOf d⟩
-  | _ => none
+def insertSorted (e : String) : List String → List String
+  | [] => [e]
+  | f :: fs => if e ≤ f then e :: f :: fs else f :: insertSorted e fs
 
-def readGroups (s : String) : Option (List G) :=
-  match SX.parse s with
-  | some (.list (.atom "gs" :: gs)) => gs.mapM readG
-  | _ => none
+/-- The attachments of one base are destroyed in the iteration order of the base's hidden fields (an
+atree map, hash order): the order among the attachment payloads of one base is not part of the
+observation.  Maximal runs of consecutive attachment payloads with the same base id are sorted. -/
+def normEvents (es : List String) : List String :=
+  let rec go (es : List String) (run : List String) (runId : String) (acc : List String) : List String :=
+    match es with
+    | [] => acc ++ run
+    | e :: rest =>
+      if !e.startsWith "R." && (run.isEmpty || evId e == runId) then go rest (insertSorted e run) (evId e) acc
+      else if !e.startsWith "R." then go rest [e] (evId e) (acc ++ run)
+      else go rest [] "" (acc ++ run ++ [e])
+  go es [] "" []
 
-def slotLetter : Slot → String
-  | .header => "H" | .leading => "L" | .sameLine => "S" | .trailing => "T" | .footer => "F"
+def normObs (o : String) : String :=
+  match o.splitOn "|" with
+  | [a, b, evs] => a ++ "|" ++ b ++ "|" ++ ";".intercalate (normEvents (if evs.isEmpty then [] else evs.splitOn ";"))
+  | _ => o
 
-def showAsg (a : Asg) : String := s!"{a.g.id}:{slotLetter a.slot}:{a.node}"
-
-/-- the group indices of Go's assignment list `idx:K:node …` -/
-def goIdxs (s : String) : List Nat :=
-  if s == "-" then [] else (s.splitOn " ").filterMap fun w => ((w.splitOn ":").headD "").toNat?
-
-def judge (op : List String) (go : String) : Verdict :=
+def judge (op : List String) (go0 : String) : Verdict :=
+  let go := " @@ ".intercalate ((go0.splitOn " @@ ").map normObs)
   match op with
-  | ["attach", "prog", _] =>
-    if go == "reject" then .skip "reject"
-    else if go == "panic" || go == "hang" then .violation "go-panic-or-hang" "ok" [go]
-    else if !go.startsWith "ok:" then .skip "bad-result"
-    else
-      match ((go.drop 3).toString).splitOn sepStr with
-      | [fs, gs, asg] =>
-        match readForest fs, readGroups gs with
-        | some forest, some groups =>
-          -- spec: every group exactly once
-          let idxs := goIdxs asg
-          let once := idxs == (List.range groups.length)
-          if !once then .violation "comment-group-not-attached-once" "every group in exactly one slot" [asg]
-          else
-            let mine := (attach 200 forest groups).map showAsg
-            let mineS := if mine.isEmpty then "-" else " ".intercalate mine
-            let tags := (if groups.isEmpty then [] else ["!nt"]) ++
-              ((attach 200 forest groups).map (fun a => slotLetter a.slot)).eraseDups
-            if mineS != asg then .modelDiff mineS tags else .ok tags
-        | _, _ => .skip "bad-sexpr"
-      | _ => .skip "bad-result"
+  | _ :: "prog" :: _ =>
+    let sx := op.getD 4 ""
+    let forms := ((op.getD 3 "").drop 6).toString.splitOn "," |>.filter (· ≠ "")
+    if go0.startsWith "reject:" then .skip "rejected-by-checker" else
+    match readProgram sx, go.splitOn " @@ " with
+    | some p, [oi, ov, oo] =>
+      let m := normObs (renderObs (run St.init p))
+      let outTag := (m.splitOn "|").headD ""
+      let tags := forms ++ [outTag] ++ (if forms.isEmpty then [] else ["!nt"])
+      if hasDoubleAttach p && (oi.startsWith "ok:" || ov.startsWith "ok:" || oo.startsWith "ok:") then
+        .violation "double-attach-succeeded" "a second attach of the same attachment type must fail" tags
+      else if attAfterBase oi || attAfterBase ov || attAfterBase oo then
+        .violation "attachment-outlives-base" "attachments are destroyed before their base" tags
+      else if oi ≠ ov then .violation "engines-differ" ("vm = interpreter = " ++ oi) tags
+      else if ov ≠ oo then .violation "peephole-differs" ("vm+peephole = vm = " ++ ov) tags
+      else if m.startsWith "model-internal" then .skip m
+      else if m ≠ oi then .modelDiff m tags
+      else .ok tags
+    | none, _ => .skip "sx-unreadable"
+    | _, _ => .skip "bad-go-result"
   | _ => .skip "unknown-op"
 
 def main : IO Unit := runDriver judge
